@@ -16,7 +16,7 @@ RULE = ('A case is a generated audit trail on the in-memory ZooKeeper: 2-7 '
         '(microseconds to weeks either side), /finished records with '
         'generated mtimes, 0-3 servers with server-trace events, 0-4 existing '
         'snapshots per history directory (some rows duplicate live records), '
-        'batch sizes 1-7, history max_count 1-4, child-listing order '
+        'batch sizes 1-7, history max_count 1-6, child-listing order '
         'permuted. All nodes are written by the real producers (publish / '
         'zkutils.put). A case is a short HISTORY of one archiver process: '
         '1-3 passes of the cleanup loop; between passes the clock advances '
@@ -53,7 +53,12 @@ RULE = ('A case is a generated audit trail on the in-memory ZooKeeper: 2-7 '
         'record that was live before is live, or returned by download_batch '
         '/ a row of a snapshot the harness opens itself; events of scheduled '
         'instances and records younger than the expiry are live; no pruner '
-        'ever deleted one of the max_count newest snapshots and a completed '
+        'ever deleted one of the max_count newest snapshots; the product\'s '
+        'own reader (AppTraceLoop(instance).run(snapshot=True) with a '
+        'recording handler, real _process_db_events/download_batch) delivers '
+        'for every unscheduled instance every event that is live or a row of '
+        'a surviving snapshot, and nothing else (duplicates counted, not '
+        'flagged); a completed '
         'run leaves exactly the max_count newest. Non-trivial = the clean '
         'run uploaded at least one full trace batch AND the population has '
         'an expired event of a still-scheduled instance AND an unexpired '
@@ -65,6 +70,13 @@ ASSUMPTIONS = [
     'kazoo.exceptions.ConnectionLoss / SessionExpiredError without being '
     'applied (the applied-but-reply-lost flavour of ConnectionLoss is not '
     'modelled)',
+    'reader oracle: the reader lists /trace.history in sequence order (the '
+    'archiver still sees permuted listings) and no event is published with a '
+    'timestamp older than an already archived event of its instance; on the '
+    'two excluded kinds of history the unchanged reader does not deliver an '
+    'archived event (notes/C18-notes.md; VERIF_C18_READER_STRICT=1 generates '
+    'them, buckets c18.reader.event-not-delivered.unsorted-history-listing / '
+    '.older-than-already-archived)',
     'kazoo.retry.KazooRetry is the real class, only its back-off sleep runs '
     'on the virtual clock (fixed 100 ms per attempt)',
     'virtual clock replaces treadmill.trace.app.zk.time; node mtimes come '
@@ -140,6 +152,17 @@ def _instances(draw):
         used.add(ident)
         scheduled = draw(st.integers(0, 9)) < 3
         events = draw(st.lists(_event(True), min_size=0, max_size=5))
+        if _idx == 0 and draw(st.booleans()):
+            # a long-running, now finished instance: first events long
+            # before, terminal event long after most events of the others
+            scheduled = False
+            events = events[:3] + [
+                {'dt': draw(st.integers(-4000 * SECOND, -3600 * SECOND)),
+                 'k': draw(st.sampled_from([0, 1, 2])),
+                 'v': draw(st.integers(0, 8))},
+                {'dt': draw(st.integers(-30 * SECOND, -2 * SECOND)),
+                 'k': draw(st.sampled_from([5, 6, 7])),
+                 'v': draw(st.integers(0, 8))}]
         fin = None
         if draw(st.integers(0, 9)) < 6:
             fin = {
@@ -193,11 +216,13 @@ def _step_op(draw):
     if pick < 9:
         # a further terminal event: publish() rewrites /finished/<instance>
         return {'op': 'event', 'i': inst, 'k': draw(st.sampled_from([5, 6, 7])),
-                'v': var, 'back': draw(st.sampled_from([0, 0, 2 * SECOND]))}
+                'v': var, 'back': draw(st.sampled_from([0, 0, SECOND]))}
     if pick < 14:
         return {'op': 'event', 'i': inst, 'k': draw(st.integers(0, 9)),
                 'v': var,
-                'back': draw(st.sampled_from([0, SECOND, 4000 * SECOND]))}
+                'back': draw(st.sampled_from(
+                    [0, SECOND, 4000 * SECOND] if READER_STRICT
+                    else [0, SECOND // 2, SECOND]))}
     if pick < 18:
         return {'op': 'unschedule', 'i': inst}
     return {'op': 'server_event', 'i': inst, 'k': draw(st.integers(0, 2)),
@@ -215,6 +240,11 @@ def _steps():
 
 EXPIRIES = [0, 1, 30, 300, 3600]
 
+# Calibration switch (generator only; a case stays a pure function of its
+# JSON): also generate the two kinds of history on which the reader of the
+# unchanged tree does not deliver an archived event - see notes/C18-notes.md.
+READER_STRICT = bool(os.environ.get('VERIF_C18_READER_STRICT'))
+
 
 @st.composite
 def _params(draw, driver):
@@ -227,9 +257,11 @@ def _params(draw, driver):
                                  unique=True))
         return [draw(values), draw(values)]
 
-    batches = pair(st.integers(1, 7))
+    # small batches and a longer history are common: an instance's events
+    # then spread over several snapshots with other instances' in between
+    batches = pair(st.sampled_from([1, 2, 2, 3, 3, 4, 5, 6, 7]))
     expiries = pair(st.sampled_from(EXPIRIES))
-    maxes = pair(st.integers(1, 4))
+    maxes = pair(st.sampled_from([1, 2, 3, 4, 4, 5, 6]))
     par = {
         'trace_batch': batches[0], 'finished_batch': batches[1],
         'trace_expire': expiries[0], 'finished_expire': expiries[1],
@@ -249,6 +281,7 @@ def _params(draw, driver):
 def strategy(draw, tier=None):
     driver = draw(st.booleans())
     return {
+        'reader_listing': 'as-listed' if READER_STRICT else 'sorted',
         'driver': driver,
         'params': draw(_params(driver)),
         'order_seed': draw(st.integers(0, 3)),
